@@ -264,11 +264,13 @@ let vals_of_string (s : string) : val0 list =
   match val_of_sx (parse_sx s) with VList l -> l | _ -> failwith "vals"
 
 let do_writer k always rep num vs =
+  if k = "enum" then (match mx_writer_enum (z_of_string num) (vals_of_string vs) with Panic -> "PANIC" | Ok b -> hex_of_bytes b) else
   match mx_writer (kind_of_string k) (always = "1") (rep = "1") (z_of_string num) (vals_of_string vs) with
   | Panic -> "PANIC"
   | Ok b -> hex_of_bytes b
 
 let do_reader k rep field data init =
+  let k = if k = "enum" then "int32" else k in   (* RepeatedEnum: the element is int32(x) *)
   let ((((pf, pw), rem), e), vs) = mx_reader (kind_of_string k) (rep = "1") (z_of_string field) (bytes_of_hex data) (vals_of_string init) in
   let es = (match e with None -> "-" | Some (f, c) -> string_of_z f ^ ":" ^ string_of_ecls c) in
   let pw = (match pf with Zneg _ -> Z0 | _ -> pw) in
